@@ -150,18 +150,19 @@ def target_extract_parameters():
         e1 = FakeElement("R", ["R"], (False,))
         e2 = FakeElement("Q", ["Y", "n"], (False, True))
         e3 = FakeElement("R", ["R"], (False,))           # running identifier 10: 'R_10' must not be taken for element 0
+        e4 = FakeElement("Tlmbq", ["Y", "Y_B", "n_B"], (False, False, False))     # parameter symbols that contain an underscore and share a prefix
 
         class Par:
             def __init__(self, name):
                 self.value, self.stderr = T.var(f"fit:{name}"), T.var(f"stderr:{name}")
 
         class Fit:
-            var_names = ["R_0", "Y_1", "alpha_1", "R_10"]          # alpha_1: a user constraint variable that merely looks like '<x>_<id>'
-            params = {n: Par(n) for n in ("R_0", "Y_1", "n_1", "alpha_1", "R_10")}
+            var_names = ["R_0", "Y_1", "alpha_1", "R_10", "Y_3", "Y_B_3", "n_B_3"]          # alpha_1: a user constraint variable that merely looks like '<x>_<id>'
+            params = {n: Par(n) for n in ("R_0", "Y_1", "n_1", "alpha_1", "R_10", "Y_3", "Y_B_3", "n_B_3")}
 
         class Circuit:
             def generate_element_identifiers(self, running):
-                return {e1: 0, e2: 1, e3: 10} if running else {e1: 1, e2: 1, e3: 2}
+                return {e1: 0, e2: 1, e3: 10, e4: 3} if running else {e1: 1, e2: 1, e3: 2, e4: 1}
         got = {}
 
         def FittedParameter(**kw):
@@ -174,7 +175,10 @@ def target_extract_parameters():
             err, table = ex, {}
         sess.check("exc-free", [], z3.BoolVal(err is None), 0, label=f"no exception for a constraint variable named like a parameter ({type(err).__name__ if err else 'ok'})")
         if err is None:
-            sess.check("post", [], z3.BoolVal(sorted(table) == ["Q_1", "R_1", "R_2"] and sorted(table["Q_1"]) == ["Y", "n"] and sorted(table["R_1"]) == ["R"] and sorted(table["R_2"]) == ["R"]), 0, label="one row per (element name, parameter), nothing else")
+            sess.check("post", [], z3.BoolVal(sorted(table) == ["Q_1", "R_1", "R_2", "Tlmbq_1"] and sorted(table["Q_1"]) == ["Y", "n"] and sorted(table["R_1"]) == ["R"] and sorted(table["R_2"]) == ["R"]
+                                              and sorted(table.get("Tlmbq_1", {})) == ["Y", "Y_B", "n_B"]), 0, label="one row per (element name, parameter), nothing else")
+            for sym_ in ("Y", "Y_B", "n_B"):
+                DF.eq_check(sess, f"table[Tlmbq_1][{sym_}] == fit.params[{sym_}_3].value (symbols with an underscore keep their own value)", table.get("Tlmbq_1", {}).get(sym_, {}).get("value"), Fit.params[f"{sym_}_3"].value)
             DF.eq_check(sess, "table[R_2][R] == fit.params[R_10].value (identifier 10 is not confused with identifier 0)", table["R_2"]["R"]["value"], Fit.params["R_10"].value)
             DF.eq_check(sess, "table[R_1][R] == fit.params[R_0].value", table["R_1"]["R"]["value"], Fit.params["R_0"].value)
             DF.eq_check(sess, "table[Q_1][Y] == fit.params[Y_1].value", table["Q_1"]["Y"]["value"], Fit.params["Y_1"].value)
@@ -239,7 +243,8 @@ _targets_c12_core = targets
 
 
 def targets():      # noqa: F811
-    return _targets_c12_core() + [target_fit_identifiers()]
+    from . import frames
+    return _targets_c12_core() + [target_fit_identifiers(), frames.target_inputs_not_modified()]
 
 
 _targets_before_purity = targets
